@@ -7,7 +7,7 @@ from anytree import Resolver, ResolverError
 
 from .. import forest, refs, resolver_ref as rr, shapes, strategies
 from ..core import Violation
-from .c07 import ALPHABET, SEPS, uniquify
+from .c07 import ALPHABET, SEPS, resolver, uniquify
 
 PROP_ID = "C08"
 LEVEL = "exploration"
@@ -61,7 +61,7 @@ def check_query(case, nodes, labels, preorder_index, ic, start, pattern, unique,
     sep, pathattr = case["sep"], case["pathattr"]
     trace = rr.GlobTrace()
     exp = rr.ref_glob(start, pattern, sep, pathattr, ic, trace)
-    relaxed = run(Resolver(pathattr, ignorecase=ic, relax=True).glob, start, pattern)
+    relaxed = run(resolver(pathattr, ic, True).glob, start, pattern)
     ctx = "glob(%s, %r) sep=%r ignorecase=%s names=%s shape=%s" % (labels.label(start), pattern, sep, ic, case["names"], case["shape"])
     if relaxed[0] != "ok":
         raise Violation("relaxed-raises", "%s relax=True raised %s: %s" % (ctx, relaxed[1], relaxed[2]))
@@ -90,7 +90,7 @@ def check_query(case, nodes, labels, preorder_index, ic, start, pattern, unique,
     wild = any(rr.is_wild(c) for c in body) or (pattern.startswith(sep) and rr.is_wild(comps[1]))
     nontrivial = (wild or has_star) and bool(exp)
     if unique:
-        strict = run(Resolver(pathattr, ignorecase=ic).glob, start, pattern)
+        strict = run(resolver(pathattr, ic, False).glob, start, pattern)
         if strict[0] == "crash":
             raise Violation("strict-crash", "%s strict mode raised %s: %s" % (ctx, strict[1], strict[2]))
         if strict[0] == "error":
@@ -109,14 +109,14 @@ def check_query(case, nodes, labels, preorder_index, ic, start, pattern, unique,
                     raise Violation("strict-differs", "%s strict mode returned %s, relaxed mode %s (dead ends %s)" % (ctx, labels.labels(sgot), labels.labels(got), trace.dead))
         if not wild and not has_star:
             # wildcard-free pattern: must agree with get
-            g = run(Resolver(pathattr, ignorecase=ic).get, start, pattern)
+            g = run(resolver(pathattr, ic, False).get, start, pattern)
             if g[0] == "ok":
                 if strict[0] != "ok" or len(strict[1]) != 1 or strict[1][0] is not g[1]:
                     raise Violation("glob-vs-get", "%s: get returns node %s, strict glob %s" % (ctx, labels.label(g[1]), strict[1] if strict[0] != "ok" else labels.labels(strict[1])))
             elif g[0] == "error":
                 if strict[0] != "error" or strict[1] != g[1]:
                     raise Violation("glob-vs-get", "%s: get raises %s, strict glob %s" % (ctx, g[1], strict[1] if strict[0] != "ok" else labels.labels(strict[1])))
-            rg = run(Resolver(pathattr, ignorecase=ic, relax=True).get, start, pattern)
+            rg = run(resolver(pathattr, ic, True).get, start, pattern)
             if rg[0] != "ok":
                 raise Violation("relaxed-get-raises", "%s: relaxed get raised %s" % (ctx, rg[1]))
             if (rg[1] is None) != (got == []):
